@@ -55,6 +55,7 @@ class Engine:
         self.fork_timeout = int(opts.get("fork_timeout_ms", 3000))
         self.prove_timeout = int(opts.get("prove_timeout_ms", 10000))
         self.seed = int(opts.get("seed", 0))
+        self.no_witness = bool(opts.get("no_witness"))
         if self.seed:
             self.solver.set("random_seed", self.seed % (2**31))
         self.prefix = list(prefix)
@@ -334,6 +335,9 @@ class Engine:
             return True
         if r == z3.sat and m is not None:
             self.oblig.append((label, "sat"))
+            if self.no_witness:
+                self.failures.append({"label": label, "witness": {}, "alts": [], "info": info, "prefix_len": len(self.prefix)})
+                return False
             ws = self._witnesses(z3.Not(phi), m, evals)
             self.failures.append({"label": label, "witness": ws[0], "alts": ws[1:], "info": info, "prefix_len": len(self.prefix)})
             return False
@@ -1623,6 +1627,25 @@ class Sym:
 
     def eq(self, a, b, tol=0.0):
         return all_eq(a, b)
+
+
+class CanarySym(Sym):
+    """Vacuity/blindness canary: the obligation `target` is asserted NEGATED (every other obligation is
+    skipped).  A healthy harness must then report a counterexample: the obligation is reached on a
+    feasible path and is not vacuously true.  A canary that stays silent is a harness error."""
+
+    def __init__(self, target):
+        self.target = target
+
+    def prove(self, c, label, evals=None, info=None):
+        if label != self.target:
+            return True
+        if isinstance(c, (bool, np.bool_)):
+            return E().prove(not bool(c), label, evals=evals, info=info)
+        return E().prove(snot(c), label, evals=evals, info=info)
+
+    def fail(self, label, info=None):
+        return None
 
 
 class Replay:
